@@ -35,6 +35,7 @@ def splitSemi (toks : List String) : List (List String) :=
 def pEv : List String → Option Ev
   | ["r", h] => (fromHex h).map Ev.read
   | ["w"] => some .respond
+  | ["i"] => some .interim
   | _ => none
 
 def handle : List String → String
@@ -55,7 +56,8 @@ def handle : List String → String
               match feed cl m s b with
               | none => (none, acc.2 ++ ["refused"])
               | some s' => (some s', acc.2 ++ ["ok"])
-            | .respond => (some (respond s), acc.2 ++ ["ok"])) (some PlainFraming.init, [])
+            | .respond => (some (respond s), acc.2 ++ ["ok"])
+            | .interim => (some (interim true s), acc.2 ++ ["ok"])) (some PlainFraming.init, [])
         let fin := match st with
           | none => "closed"
           | some s => s!"hdr={s.header.length} body={s.body} {s.inBody} {s.complete}"
